@@ -68,6 +68,7 @@ impl Prop for C09 {
         vec![
             // items_per_slot at its maximum with one item more than a full section
             Case::Bw(c01::big_case(65_537, 65535, 1)),
+            Case::Bw(c01::repetitive_case(6000, 8192)),
             Case::Bb(c02::big_case(65_537, 65535)),
             Case::Bw(bw),
             Case::Bb(c02::Case { input: BbInput { chroms: bb_chroms, unused: vec![], autosql: None }, opts: o, k2_nudged: 0, delay: None }),
